@@ -200,7 +200,7 @@ def run(ctx):
     # the observed directory-loop orders; the order A,B,C is always among them
     n_problems += _chains(ctx, items)
     # ---- generated
-    nbase = ctx.n(45, 24)
+    nbase = ctx.n(36, 20)
     per_base = ctx.n(2, 40)
     for _ in range(nbase):
         base, notes = TC.gen_base(ctx.rng, "C04")
@@ -262,12 +262,12 @@ def run(ctx):
                 finally:
                     S.close()
     # ---- histories: remote gc behind a persistent destination index, then a different tree
-    for _ in range(ctx.n(16, 120)):
+    for _ in range(ctx.n(12, 100)):
         case, notes = TC.gen_history_c04(ctx.rng)
         n_problems += _history(ctx, case, notes, items)
     # ---- index-level push stream (oracle only)
     n_push = n_push_problems = 0
-    for case in TP.builtin_corpus() + [TP.gen_case(ctx.rng) for _ in range(ctx.n(25, 200))]:
+    for case in TP.builtin_corpus() + [TP.gen_case(ctx.rng) for _ in range(ctx.n(20, 160))]:
         for cv, problems, (feats, nontrivial), rounds in TP.run_case(ctx, copy.deepcopy(case),
                                                                     crash_points=ctx.n(1, 8)):
             n_push += 1
